@@ -40,8 +40,14 @@ def histogram(line):
 def translate():
     # coq/disc/GenDiscU8.v: motif-loop statements, wrapper guards and dispatcher arms of the u8 kernels,
     # regenerated from avx2.rs / neon.rs / dispatch.rs / pli/mod.rs on every check
-    from translate import disc_u8
-    return disc_u8.run()
+    # coq/disc/GenDiscSkel.v: statement skeleton of ScoringMatrix::to_discrete and DiscreteMatrix::{scale, unscale,
+    # score_position} (pwm/mod.rs)
+    from translate import disc_u8, disc_skel
+    r1 = disc_u8.run()
+    r2 = disc_skel.run()
+    return dict(ok=bool(r1.get("ok", True) and r2.get("ok", True)),
+                notes=list(r1.get("notes", [])) + list(r2.get("notes", [])),
+                errors=list(r1.get("errors", [])) + list(r2.get("errors", [])))
 
 
 SPEC = dict(
